@@ -22,9 +22,19 @@ What is compared, for every form / integral×domain / expression of every entry:
                           (values, None-ness, list-ness)
 
 A difference is `chk.disagree` (model ≠ implementation).  The agreement C ↔ numba itself is the theorem
-(FfcxProofs/C18Descr.lean); `formagree` additionally evaluates it on every exported IR, and where level 2
-(the compiled struct) differs from the numba attribute the real pipeline is asked for the same input
-(`probe_int_range`): a confirmed difference is `chk.violation`.
+(FfcxProofs/C18Descr.lean); `formagree` additionally evaluates it on every exported IR.
+
+Independently of the model, the property's own oracle (`real_diff`) compares the REAL C descriptor (text and cffi)
+with the REAL numba descriptor of every object: a difference is a failing input -> `chk.violation`
+(`c18:descriptor:<kind>:<field>[:synthetic]`).  Where the theorems say level 2 (the compiled struct) must differ
+from the numba attribute (`form_descriptors_counterexample`: subdomain ids >= 2**31) the real pipeline is asked for
+a form that reaches it (`probe_int_range`, key `c18:descriptor:form_integral_ids:int32-overflow`).
+
+Synthetic inputs: hand-built `FormIR` tuples (many domains per integral, empty integral types, zero coefficients,
+duplicate/unsorted/huge ids, None hashes, inconsistent records on which both generators fail) through
+`ffcx.codegeneration.{C,numba}.form.generator` directly, all accepted ones compiled into ONE cffi module (integrals
+stubbed) and read back; real IntegralIR / ExpressionIR tuples with the descriptor fields replaced, for the four
+scalar types and both values of `sys.platform.startswith("win32")`.
 """
 import random
 import re
@@ -491,16 +501,66 @@ def _kern_nullness(k):
     return [(n, "fn" if s == "fn" else "null") for n, s, _ in k]
 
 
+def real_diff(c, nb):
+    """The property's own oracle, independent of the model: fields of the two REAL descriptors (C: parsed text or
+    struct read through cffi; numba: class attributes) that a consumer reads differently.  NULL, None and [] all
+    offer no entries; kernel slots are compared through the callable functions; point literals as doubles."""
+    if isinstance(c, tuple) or isinstance(nb, tuple):
+        return {} if isinstance(c, tuple) and isinstance(nb, tuple) else {"<result>": {"C": c if isinstance(c, tuple) else "ok", "numba": nb if isinstance(nb, tuple) else "ok"}}
+
+    def norm(v):
+        return [] if v is None else v
+
+    out = {}
+    for k, a in c.items():
+        if k not in nb or k == "rows":
+            continue
+        b = nb[k]
+        if k == "kernels":
+            fa, fb = [f for _, s_, f in a if s_ == "fn"], [f for _, s_, f in b if s_ == "fn"]
+            same = (len(fa) == len(fb)) if None in fa else fa == fb
+        elif k == "points":
+            same = len(norm(a)) == len(norm(b)) and all(float(x) == float(y) for x, y in zip(norm(a), norm(b)))
+        elif k == "constant_shapes":
+            same = [norm(x) for x in norm(a)] == [norm(x) for x in norm(b)]
+        else:
+            same = norm(a) == norm(b)
+        if not same:
+            out[k] = {"C": a, "numba": b}
+    return out
+
+
 class Session:
     """asks the driver and records the comparisons of one object"""
 
     def __init__(self, chk, d):
         self.chk, self.d = chk, d
         self.level2 = []  # inputs where C.storeForm ∘ C.form and Numba.form differ
+        self.seen = set()
 
     def _count(self, what):
         k = "compared:" + what
         self.chk.hist[k] = self.chk.hist.get(k, 0) + 1
+
+    def oracle(self, kind, origin, name, c, nb, level, replay):
+        """real C descriptor vs real numba descriptor of the same object: a difference is a failing input"""
+        if c is None or nb is None:
+            return
+        self._count(f"{kind}:real-C-{level}-vs-real-numba")
+        df = real_diff(c, nb)
+        if not df:
+            return
+        src = origin.split(":")[0]
+        for field in df:
+            key = f"c18:descriptor:{kind}:{field}" + ("" if src == "corpus" else f":{src}")
+            if level == "cffi" and kind == "form" and field == "form_integral_ids" and any(
+                    not -2**31 <= v < 2**31 for v in (df[field]["numba"] or [])):
+                key = KEY_INT32  # the C `int` member cannot hold the id (theorem form_descriptors_counterexample)
+            if key in self.seen:
+                continue
+            self.seen.add(key)
+            self.chk.violation(key, f"{kind} descriptor field `{field}` differs between the C backend ({'compiled struct read through cffi' if level == 'cffi' else 'generated initialisers'}) and the numba backend",
+                               {"origin": origin, kind: name, "field": field, "C": df[field]["C"], "numba": df[field]["numba"], "replay": replay[:3000]})
 
     def form(self, origin, name, table, irtext, c_text=None, c_decls=None, c_cffi=None, nb=None):
         chk, d = self.chk, self.d
@@ -542,6 +602,9 @@ class Session:
                 df["form_integrals"] = {"model": ms["form_integrals"], "impl": "NULL" if c_cffi["rows"] is None else "non-NULL"}
             if df:
                 chk.disagree("C.storeForm ∘ C.form vs the ufcx_form struct read through cffi", {"origin": origin, "form": name, "fields": df, "ir": irtext[:1500]})
+        replay = f"entry {origin}" if origin.startswith("corpus:") else f"FormIR {irtext}"
+        self.oracle("form", origin, name, c_text, nb, "text", replay)
+        self.oracle("form", origin, name, c_cffi, nb, "cffi", replay)
         return mc, mn
 
     def integral(self, origin, name, irtext, domtext, st, win32, c_text=None, c_cffi=None, nb=None):
@@ -568,14 +631,18 @@ class Session:
             df = _diff(m2, i2, skip=("factory",))
             if df:
                 chk.disagree("C.integral vs the ufcx_integral struct read through cffi", {"origin": origin, "integral": name, "fields": df, "ir": irtext})
+        replay = f"entry {origin}" if origin.startswith("corpus:") else f"IntegralIR {irtext} {domtext} {st} win32={w}"
+        self.oracle("integral", origin, name, c_text, nb, "text", replay)
+        self.oracle("integral", origin, name, c_cffi, nb, "cffi", replay)
         return mc, mn
 
-    def expression(self, origin, name, irtext, st, c_text=None, c_cffi=None, nb=None):
+    def expression(self, origin, name, irtext, st, c_text=None, c_cffi=None, nb=None, oracle=True):
         chk, d = self.chk, self.d
         mc = parse_expr_reply(d.ask(f"(cexpr {irtext} {st})"))
         mn = parse_expr_reply(d.ask(f"(numbaexpr {irtext} {st})"))
         key = "error" if isinstance(mc, tuple) else "|".join(str(mc[k]) for k in ("num_points", "entity_dimension", "value_shape", "rank", "num_coefficients", "num_constants", "original_coefficient_positions"))
         chk.case("descr_expression", f"{origin.split(':')[0]}|{key}|{st}")
+        nb_in = nb
         if c_text is not None:
             self._count("expression:C-text")
             df = _diff(mc, c_text)
@@ -603,6 +670,12 @@ class Session:
                 df["points"] = {"model": m2["points"], "impl": pts}
             if df:
                 chk.disagree("C.expression vs the ufcx_expression struct read through cffi", {"origin": origin, "expression": name, "fields": df, "ir": irtext[:1500]})
+        replay = f"entry {origin}" if origin.startswith("corpus:") else f"ExpressionIR {irtext} {st}"
+        if oracle:
+            self.oracle("expression", origin, name, c_text, nb_in, "text", replay)
+            self.oracle("expression", origin, name, c_cffi, nb_in, "cffi", replay)
+        elif real_diff(c_text, nb_in):  # an IR the pipeline cannot produce: recorded, not a failing input
+            self.chk.hist["unreachable-ir-asymmetry:expression"] = self.chk.hist.get("unreachable-ir-asymmetry:expression", 0) + 1
         return mc, mn
 
 
@@ -620,20 +693,36 @@ def _work_entry(e, use_cffi=True):
     from ffcx.formatting import format_code
 
     warnings.filterwarnings("ignore")
+
+    def front(o):
+        """UFL objects -> (compiled objects, module, IR): the stages before the descriptor generators"""
+        objs = e.build()
+        comp = mod = None
+        ns_name = "vf"
+        if use_cffi:
+            tag = "_".join(f"{k}={v}" for k, v in sorted(o.items())) or "default"
+            cd = cjit.cache_dir(tag.replace("/", "_")[:60])
+            if e.kind == "expression":
+                comp, mod, _ = pipeline.jit_expressions(objs, cd, o)
+            else:
+                comp, mod, _ = pipeline.jit_forms(objs, cd, o)
+            ns_name = mod.__name__  # the JIT's prefix: the IR below then carries the names of the compiled module
+        _, ir = pipeline.compute(objs, pipeline.default_options(**o), namespace=ns_name)
+        return comp, mod, ir
+
     o = _entry_options(e)
+    loose = bool({"demo", "generated"} & set(e.tags or ()))  # inputs FFCx may not support in this mode
+    try:
+        comp, mod, ir = front(o)
+    except Exception as ex:
+        if not loose:
+            raise
+        try:  # complex-only demos
+            o = dict(o, scalar_type="complex128")
+            comp, mod, ir = front(o)
+        except Exception:
+            return {"name": e.name, "skipped": f"{type(ex).__name__}: {str(ex)[:120]}"}
     st = str(o.get("scalar_type", "float64"))
-    objs = e.build()
-    ns_name = "vf"
-    comp = mod = None
-    if use_cffi:
-        tag = "_".join(f"{k}={v}" for k, v in sorted(o.items())) or "default"
-        cd = cjit.cache_dir(tag.replace("/", "_")[:60])
-        if e.kind == "expression":
-            comp, mod, _ = pipeline.jit_expressions(objs, cd, o)
-        else:
-            comp, mod, _ = pipeline.jit_forms(objs, cd, o)
-        ns_name = mod.__name__
-    _, ir = pipeline.compute(objs, pipeline.default_options(**o), namespace=ns_name)
     optC = pipeline.default_options(language="C", **o)
     optN = pipeline.default_options(language="numba", **o)
     codeC, _ = generate_code(ir, optC)
@@ -701,6 +790,10 @@ def check_entries(chk, sess, entries, use_cffi=True):
             else:
                 chk.notes.setdefault("descr_errors", []).append(f"{e.name}: {st}: {str(r)[:300]}")
                 chk.disagree("descriptor comparison run failed", {"entry": e.name, "detail": str(r)[-600:]})
+            continue
+        if "skipped" in r:  # rejected before the descriptor generators run (not this property's business)
+            chk.hist["skipped:" + r["skipped"].split(":")[0]] = chk.hist.get("skipped:" + r["skipped"].split(":")[0], 0) + 1
+            chk.notes.setdefault("descr_skipped", []).append(f"{e.name}: {r['skipped']}")
             continue
         chk.programs += 1
         for f in r["forms"]:
@@ -778,12 +871,12 @@ def _compile_synthetic(forms, tmp):
     import ffcx.codegeneration
     from ffcx.codegeneration import jit
 
-    stubs = sorted({n for _, _, parsed in forms for n in (parsed["form_integrals"] or [])})
+    stubs = sorted({n for _, _, parsed, _ in forms for n in (parsed["form_integrals"] or [])})
     body = "#include <stdint.h>\n#include <stdbool.h>\n#include <stddef.h>\n#include <ufcx.h>\n"
     body += "".join(f"ufcx_integral {n} = {{0}};\n" for n in stubs)
-    body += "\n".join(text for _, text, _ in forms)
+    body += "\n".join(text for _, text, _, _ in forms)
     decl = jit.UFC_HEADER_DECL.format("float64") + jit.UFC_INTEGRAL_DECL + jit.UFC_FORM_DECL
-    decl += "".join(f"extern ufcx_form {ir.name};\n" for ir, _, _ in forms)
+    decl += "".join(f"extern ufcx_form {ir.name};\n" for ir, _, _, _ in forms)
     fb = cffi.FFI()
     modname = f"descr_syn_{abs(hash(body)) % 10**12}"
     fb.set_source(modname, body, include_dirs=[ffcx.codegeneration.get_include_path()], extra_compile_args=["-std=c17", "-O0", "-w"])
@@ -829,13 +922,13 @@ def check_synthetic_forms(chk, sess, seed, n):
                 nb = ("error", f"NameError: {ex}")
         sess.form(f"synthetic:{seed}", ir.name, table, irtext, c_text, decls, None, nb)
         if not isinstance(c_text, tuple):
-            compiled.append((ir, rc, c_text))
+            compiled.append((ir, rc, c_text, nb))
     # level 2: compile all accepted C forms in one module and read the structs back
     if compiled:
-        tmp = Path(tempfile.mkdtemp(prefix="descr_syn_", dir="/tmp"))
+        tmp = Path(tempfile.mkdtemp(prefix="ffcxverif_descr_"))
         try:
             m = _compile_synthetic(compiled, tmp)
-            for ir, _, parsed in compiled:
+            for ir, _, parsed, nb in compiled:
                 table, irtext = export_form(ir)
                 ntab = sum(len(ds) for t in TYPES for ds in ir.integral_domains[t])
                 cf = read_cffi_form(m.ffi, getattr(m.lib, ir.name), ir, ntab)
@@ -848,6 +941,7 @@ def check_synthetic_forms(chk, sess, seed, n):
                 chk.case("descr_form_stored", f"syn|{cf['form_integral_ids']}")
                 if df:
                     chk.disagree("C.storeForm ∘ C.form vs the compiled struct of a synthetic FormIR", {"form": ir.name, "fields": df, "ir": irtext[:1500]})
+                sess.oracle("form", f"synthetic:{seed}", ir.name, cf, nb, "cffi", f"FormIR {irtext}")
         finally:
             shutil.rmtree(tmp, ignore_errors=True)
 
@@ -926,7 +1020,9 @@ def check_synthetic_expressions(chk, sess, seed, n):
         nm = eir2.expression.name
         c_text = ("error", rc[1]) if isinstance(rc, tuple) else parse_c_expression(rc, nm)
         nb = ("error", rn[1]) if isinstance(rn, tuple) else read_numba_expression(load_numba("import numpy as np\nimport math\n" + rn), nm, eir2.name_from_uflfile)
-        sess.expression(f"synthetic:{seed}", nm, irtext, st, c_text, None, nb)
+        # `_compute_expression_ir` always stores an int hash: a None hash exercises the model's error branch
+        # (theorem expression_descriptors_counterexample) but is not an input of the property's oracle
+        sess.expression(f"synthetic:{seed}", nm, irtext, st, c_text, None, nb, oracle=h is not None)
 
 
 # ============================================================================ module prelude / enums
@@ -957,7 +1053,7 @@ def check_prelude(chk, d):
 
 
 # ============================================================================ probe: level 2 through the real pipeline
-def probe_int_range(chk):
+def probe_int_range(chk, seen=None):
     """Where `C.storeForm ∘ C.form` differs from `Numba.form` (theorem form_descriptors_counterexample): the same
     input through the REAL pipeline — JIT-compiled C module read through cffi vs the attributes of the numba class."""
     import ufl
@@ -977,7 +1073,9 @@ def probe_int_range(chk):
         cls = next(c for k, c in ns.items() if isinstance(c, type) and hasattr(c, "form_integral_ids"))
         nids = list(cls.form_integral_ids)
         chk.case("descr_probe_int_range", f"ids|{cids}|{nids}", sample={"form": f"v*dx(3) + v*dx({big})", "C (cffi)": cids, "numba": nids})
-        if cids != nids:
+        if cids != nids and KEY_INT32 not in (seen if seen is not None else set()):
+            if seen is not None:
+                seen.add(KEY_INT32)
             chk.violation(KEY_INT32, "form_integral_ids of the compiled C form and of the numba form class differ for a subdomain id >= 2**31 "
                           "(C `int` member holds the id modulo 2**32, numba holds the Python integer; the C ids are no longer ascending)",
                           {"ufl": f"v*dx(3) + v*dx({big})  (P1 triangle, v = TestFunction)", "C form_integral_ids (cffi)": cids, "numba form_integral_ids": nids,
@@ -991,26 +1089,26 @@ def check_descriptors(chk, d, entries, probes=True, use_cffi=True):
     assert r == "pong-descr", r
     sess = Session(chk, d)
     check_prelude(chk, d)
+    if probes:
+        probe_int_range(chk, sess.seen)
     check_entries(chk, sess, entries, use_cffi=use_cffi)
-    nsyn = 60 if chk.tier == "quick" else 600
-    check_synthetic_forms(chk, sess, chk.seed, nsyn)
-    check_synthetic_integrals(chk, sess, chk.seed, 24 if chk.tier == "quick" else 96)
-    check_synthetic_expressions(chk, sess, chk.seed, 20 if chk.tier == "quick" else 80)
+    quick = chk.tier == "quick"
+    check_synthetic_forms(chk, sess, chk.seed, 200 if quick else 1500)
+    check_synthetic_integrals(chk, sess, chk.seed, 48 if quick else 240)
+    check_synthetic_expressions(chk, sess, chk.seed, 40 if quick else 200)
     # level 2 differences found by the model on the explored IRs: real corpus forms must have none
     real2 = [x for x in sess.level2 if x[0].startswith("corpus:")]
     chk.notes["descr_level2_differences"] = {"synthetic": len(sess.level2) - len(real2), "corpus": len(real2)}
     for origin, name, _, irtext in real2:
         chk.violation(f"c18:descriptor:stored:{origin}", "the compiled C descriptor of a corpus form differs from the numba class (value outside the C member type)",
                       {"form": name, "ir": irtext[:1500]})
-    if probes:
-        probe_int_range(chk)
     return sess
 
 
-def default_entries(tier="quick"):
+def default_entries(tier="quick", seed=0):
     ents = corpus.fixed() + corpus.expressions()
     if tier != "quick":
-        ents += corpus.complex_forms()
+        ents += corpus.complex_forms() + corpus.demos() + corpus.generated(seed, 24)
     return ents
 
 
@@ -1034,7 +1132,7 @@ def main(argv=None):
     chk = framework.Check("C18", a.tier, int(os.environ.get("VERIF_SEED", "0") or 0))
     if not a.no_lean:
         chk.lean(DESCR_MODULE, DESCR_THEOREMS, extra_files=DESCR_FILES)
-    ents = default_entries(a.tier)
+    ents = default_entries(a.tier, chk.seed)
     if a.only:
         ents = [e for e in ents if e.name in a.only.split(",")]
     with lean.Driver("driver_descr") as d:
